@@ -162,6 +162,25 @@ def _task(task):
                     emit(CL_FLAT, detail, cfg, 'ok', msg)
                     if len(h) > 1:
                         emit(CL_FLAT_ANC, detail, cfg, 'ok', ancestors_ok(a, h[:-1]))
+                # ---- flatten together with a dropped level (for a two-level taxonomy the tree is already one
+                #      level deep when flatten is applied): still the union of all lists on the leaves ----
+                for lv in h[:-1]:
+                    a, b, ea, eb = _pair(world, dict(cfg, flatten=True, drop_level=lv), flat, cfg)
+                    detail = dict(flatten=True, drop_level=lv)
+                    if ea or eb:
+                        if ea and eb:
+                            emit(CL_FLAT, detail, cfg, 'rejected', None)
+                        else:
+                            emit(CL_BOTH, detail, cfg, 'ok', f"flatten + drop_level run: {ea or 'ok'}; one-level reference run: {eb or 'ok'}")
+                        continue
+                    ba = fx.by_cell_id(a)
+                    msg = None
+                    for rb in b['results']:
+                        dd = fx.record_diff(ba[rb['cell_id']][h[-1]], rb[h[-1]], TOL)
+                        if dd:
+                            msg = f"cell {rb['cell_id']} level {h[-1]}: {dd}"
+                            break
+                    emit(CL_FLAT, detail, cfg, 'ok', msg)
                 # ---- absent level ----
                 a, b, ea, eb = _pair(world, dict(cfg, drop_level='level_that_is_not_there'), world, cfg)
                 detail = dict(drop_level='level_that_is_not_there')
